@@ -278,3 +278,120 @@ Proof.
 Qed.
 
 End CGStep.
+
+(* ---------------------------------------------------------------- along a run *)
+Section CGRun.
+Context {A : SArith}.
+Notation F := (T (SA A)).
+Variable FL : FieldLaws (SA A).
+Add Field FFcg2 : (fl_field (SA A) FL).
+Variables (n : nat) (mulA : list F -> res (list F)).
+Hypothesis LO : LinOp n mulA.
+Hypothesis SYM : SymOp n mulA.
+
+(* the ghost history of a run of the loop: R = the residuals of all earlier iterations, P = all search
+   directions used so far, newest first; tied to the loop by its own Continue steps *)
+Inductive cg_hist (body : nat -> @cg_st A -> res (@step_out A (@cg_st A))) (s0 : @cg_st A) :
+    nat -> @cg_st A -> list (list F) -> list (list F) -> Prop :=
+| cgh_start : cg_hist body s0 1 s0 [] []
+| cgh_step i s s' R P : cg_hist body s0 i s R P -> body i s = Ok (Continue s') ->
+    cg_hist body s0 (S i) s' (cg_r s :: R) (cg_p s' :: P).
+
+Lemma cg_hist_reaches body s0 i s R P : cg_hist body s0 i s R P -> reaches body 1 s0 i s.
+Proof. induction 1; [constructor | econstructor; eauto]. Qed.
+Lemma reaches_cg_hist body s0 i s : reaches body 1 s0 i s -> exists R P, cg_hist body s0 i s R P.
+Proof.
+  induction 1 as [|i s s' _ (R & P & IH) Eb].
+  - exists [], []. constructor.
+  - eexists _, _. econstructor; eauto.
+Qed.
+
+Definition cg_lens (s : @cg_st A) : Prop :=
+  length (cg_x s) = n /\ length (cg_r s) = n /\ length (cg_p s) = n /\ length (cg_z s) = n.
+
+(* the state invariant: at the first iteration nothing, afterwards the full conjugacy invariant *)
+Definition cg_state_inv (s0 : @cg_st A) (i : nat) (s : @cg_st A) (R P : list (list F)) : Prop :=
+  cg_lens s /\ length R = i - 1 /\ length P = i - 1 /\
+  ((i = 1 /\ s = s0 /\ R = [] /\ P = []) \/
+   (2 <= i /\ cgI n mulA (cg_x s) (cg_r s) (cg_p s) (cg_z s) (cg_rho1 s) R P)).
+
+(* one iteration from a state satisfying the invariant: the stepped x, r, direction p and rho satisfy the
+   conjugacy invariant with the history extended, whether the loop continues or returns Ok i *)
+Lemma cg_body_post tol normb s0 i s R P out :
+  cg_state_inv s0 i s R P -> cg_body mulA n tol normb i s = Ok out ->
+  exists x' r' p rho resid X,
+    cg_step mulA i (cg_x s) (cg_r s) (cg_p s) (cg_rho1 s) x' r' p rho /\
+    cgI n mulA x' r' p (cg_r s) rho (cg_r s :: R) (p :: P) /\
+    div (norm2 r') normb = Ok resid /\
+    out = if leb resid tol then Return (IOk i, x', mkG r' X 1) else Continue (mkCG x' r' p (cg_r s) rho resid X).
+Proof.
+  intros ((Hx & Hr & Hp & Hz) & HlR & HlP & HI) Eb.
+  destruct (cg_body_step n mulA LO tol normb i s out Hx Hr Hp Hz Eb) as (x' & r' & p & rho & resid & X & Hs & Er & Eo).
+  exists x', r', p, rho, resid, X. split; auto. split; auto.
+  destruct HI as [(-> & -> & -> & ->)|(Hi & HI)].
+  - apply (cg_first_step FL n mulA LO (cg_x s0) (cg_r s0) (cg_p s0) (cg_rho1 s0) x' r' p rho Hx Hr Hs).
+  - apply (cg_next_step FL n mulA LO SYM i (cg_x s) (cg_r s) (cg_p s) (cg_z s) (cg_rho1 s) R P x' r' p rho);
+      [apply Nat.eqb_neq; lia | exact HI | exact Hs].
+Qed.
+
+Lemma cgI_lens x r p z rho1 R P : cgI n mulA x r p z rho1 R P ->
+  length x = n /\ length r = n /\ length p = n /\ length z = n.
+Proof.
+  intros (Hx & Hr & HlR & HlP & (R' & P' & -> & -> & _) & _).
+  repeat split; auto; [exact (Forall_inv HlP) | exact (Forall_inv HlR)].
+Qed.
+
+Lemma cg_hist_inv tol normb s0 i s R P : cg_lens s0 ->
+  cg_hist (cg_body mulA n tol normb) s0 i s R P -> cg_state_inv s0 i s R P.
+Proof.
+  intros H0. induction 1 as [|i s s' R P Hh IH Eb].
+  - split; auto. split; auto. split; auto.
+  - destruct (cg_body_post tol normb s0 i s R P _ IH Eb) as (x' & r' & p & rho & resid & X & Hs & HI & Er & Eo).
+    destruct (leb resid tol); [discriminate Eo|]. injection Eo as ->. cbn [cg_x cg_r cg_p cg_z cg_rho1].
+    destruct IH as (_ & HlR & HlP & Hcase).
+    assert (Hi : 1 <= i) by (destruct Hcase as [(-> & _)|(Hi & _)]; lia).
+    split; [|split; [|split]].
+    + apply cgI_lens in HI. unfold cg_lens; cbn. tauto.
+    + cbn [length]. lia.
+    + cbn [length]. lia.
+    + right. split; [lia | exact HI].
+Qed.
+
+(* (c) the full conjugacy invariant along every run: the residuals r_0 .. r_k are mutually orthogonal, the
+   directions p_0 .. p_{k-1} mutually A-conjugate, and r_k is orthogonal to every direction *)
+Theorem cg_hist_conjugacy tol normb s0 i s R P : cg_lens s0 ->
+  cg_hist (cg_body mulA n tol normb) s0 i s R P ->
+  ForallOrdPairs (@orth A) (cg_r s :: R) /\ ForallOrdPairs (conjA mulA) P /\ Forall (orth (cg_r s)) P /\
+  length R = i - 1 /\ length P = i - 1.
+Proof.
+  intros H0 Hh. destruct (cg_hist_inv tol normb s0 i s R P H0 Hh) as (_ & HlR & HlP & [(-> & -> & -> & ->)|(Hi & HI)]).
+  - repeat split; auto; repeat constructor.
+  - destruct HI as (_ & _ & _ & _ & _ & I1 & OR & _ & CP). auto.
+Qed.
+
+(* (b) in particular, after every step: r_{k+1} _|_ p_k  and  r_{k+1} _|_ r_k
+   (cg_p = the direction just used, cg_z = the residual before the step) *)
+Theorem cg_hist_local_orth tol normb s0 i s R P : cg_lens s0 -> 2 <= i ->
+  cg_hist (cg_body mulA n tol normb) s0 i s R P ->
+  dot_raw (cg_r s) (cg_p s) = zero /\ dot_raw (cg_r s) (cg_z s) = zero.
+Proof.
+  intros H0 Hi Hh. destruct (cg_hist_inv tol normb s0 i s R P H0 Hh) as (_ & _ & _ & [(-> & _)|(_ & HI)]); [lia|].
+  destruct HI as (_ & _ & _ & _ & (R' & P' & -> & -> & _) & I1 & OR & _).
+  split; [exact (Forall_inv I1)|]. apply FOP_cons_inv in OR as (Hh' & _). exact (Forall_inv Hh').
+Qed.
+
+(* ... and for the answer of an iteration that returns Ok: the returned residual (ghost g_t) is orthogonal to
+   every earlier residual and every direction, the direction of the last step included *)
+Theorem cg_return_conjugacy tol normb s0 i s R P k x g : cg_lens s0 ->
+  cg_hist (cg_body mulA n tol normb) s0 i s R P ->
+  cg_body mulA n tol normb i s = Ok (Return (IOk k, x, g)) ->
+  k = i /\ ForallOrdPairs (@orth A) (g_t g :: cg_r s :: R) /\
+  exists p, ForallOrdPairs (conjA mulA) (p :: P) /\ Forall (orth (g_t g)) (p :: P).
+Proof.
+  intros H0 Hh Eb. pose proof (cg_hist_inv tol normb s0 i s R P H0 Hh) as HI.
+  destruct (cg_body_post tol normb s0 i s R P _ HI Eb) as (x' & r' & p & rho & resid & X & Hs & HI' & Er & Eo).
+  destruct (leb resid tol); [|discriminate Eo]. injection Eo as -> -> ->. cbn [g_t].
+  destruct HI' as (_ & _ & _ & _ & _ & I1 & OR & _ & CP). split; auto. split; auto. exists p. auto.
+Qed.
+
+End CGRun.
